@@ -69,7 +69,8 @@ JUNK == "J"    \* a byte that is neither CR nor LF where the CRLF after chunk da
 (*   [px: "none" | "on_ok" | "on_bad" | "off_ok"  (a PROXY protocol v1 line  *)
 (*        before the request line; "on_*": proxy_protocol is enabled for    *)
 (*        the connection - decided by the first message - "off_ok": it is   *)
-(*        not; "*_bad": malformed PROXY line),                              *)
+(*        not; "*_bad": malformed PROXY line; "blank1" | "blank2": one / two *)
+(*        empty lines (CRLF) before the request line, RFC 9112 2.2),        *)
 (*    rl, hdrs: Seq(HdrKinds), fr: "none"|"len"|"chunked",                 *)
 (*    n: data bytes present for fr="len",                                  *)
 (*    chunks: Seq([sz: size symbol, n: data bytes present, term: BOOLEAN,  *)
@@ -109,7 +110,10 @@ FlatBody(m) ==
                       \o FlatLines(m.trl, m.pad.t) \o <<CR, LF>>)
     [] OTHER -> <<>>
 
-PxSyms(m) == IF m.px = "none" THEN <<>> ELSE <<(IF m.px = "on_bad" THEN "PXbad" ELSE "PX"), CR, LF>>
+BlankPx == {"blank1", "blank2"}
+PxSyms(m) == IF m.px = "none" THEN <<>>
+             ELSE IF m.px = "blank1" THEN <<CR, LF>> ELSE IF m.px = "blank2" THEN <<CR, LF, CR, LF>>
+             ELSE <<(IF m.px = "on_bad" THEN "PXbad" ELSE "PX"), CR, LF>>
 HeadSyms(m) == PxSyms(m) \o <<m.rl>> \o Rep(PAD, m.pad.rl) \o <<CR, LF>> \o FlatLines(m.hdrs, m.pad.h) \o <<CR, LF>>
 FlatMsg(m) == HeadSyms(m) \o FlatBody(m)
 
@@ -127,7 +131,7 @@ Has(hs, K) == \E i \in DOMAIN hs : hs[i] \in K
 (* "ok": must be framed as returned.                                       *)
 (* a PROXY line is part of the connection preamble: acceptable only as the very first line of the
    connection and only when the protocol is enabled; anywhere else it is a malformed request line *)
-PxOk(m, first, proxyOn) == m.px = "none" \/ (m.px = "on_ok" /\ first /\ proxyOn)
+PxOk(m, first, proxyOn) == m.px = "none" \/ m.px \in BlankPx \/ (m.px = "on_ok" /\ first /\ proxyOn)
 
 HeadVerdictPx(m, first, proxyOn) == IF ~PxOk(m, first, proxyOn) THEN "reject" ELSE "ok"
 
@@ -195,19 +199,25 @@ BodyRead(m, off) ==
             ELSE [data |-> r.data, len |-> r.len + lastlen + Len(FlatLines(m.trl, m.pad.t)) + 2, v |-> r.v,
                   lastdone |-> r.len + lastlen]
 
-(* Strict(ms): per message [hv, bv, start, hend, data, end, close].        *)
+(* Strict(ms): per message [hv, bv, start, lead, hend, data, end, close]   *)
+(* (lead: empty-line symbols before the request line; a recipient that     *)
+(* skips them starts the request at start + lead).                         *)
 (* Messages after the first one that is refused or closes are not read.    *)
 RECURSIVE StrictFrom(_, _, _, _)
 StrictFrom(ms, off, first, proxyOn) ==
   IF ms = <<>> THEN <<>>
   ELSE LET m == Head(ms)
-           hv == IF HeadVerdictPx(m, first, proxyOn) = "reject" THEN "reject" ELSE HeadVerdict(m)
+           \* RFC 9112 2.2: a server SHOULD ignore at least one empty line received before the request line:
+           \* it may skip them or refuse the request, so the head is the recipient's choice ("dc")
+           hv == IF HeadVerdictPx(m, first, proxyOn) = "reject" THEN "reject"
+                 ELSE IF m.px \in BlankPx /\ HeadVerdict(m) # "reject" THEN "dc" ELSE HeadVerdict(m)
+           lead == IF m.px \in BlankPx THEN Len(PxSyms(m)) ELSE 0
            hend == off + Len(HeadSyms(m))
        IN IF hv = "reject"
-          THEN << [hv |-> "reject", bv |-> "ok", start |-> off, hend |-> hend, data |-> <<>>,
+          THEN << [hv |-> "reject", bv |-> "ok", start |-> off, lead |-> lead, hend |-> hend, data |-> <<>>,
                    end |-> hend, close |-> TRUE, lastdone |-> hend, chunked |-> FALSE] >>
           ELSE LET b == BodyRead(m, hend)
-                   rec == [hv |-> hv, bv |-> b.v, start |-> off, hend |-> hend, data |-> b.data,
+                   rec == [hv |-> hv, bv |-> b.v, start |-> off, lead |-> lead, hend |-> hend, data |-> b.data,
                            end |-> hend + b.len, close |-> HeadClose(m),
                            \* lastdone: offset at which the terminating chunk's size line is complete
                            lastdone |-> hend + b.lastdone, chunked |-> HeadFraming(m) = "chunked"]
